@@ -200,7 +200,8 @@ func cmdChild(props map[string]Property, args []string) int {
 	col.seed, col.tier = *seed, *tier
 	col.Known, _ = LoadKnown(filepath.Join(verifDir(), "known_findings.json"))
 	lastFlush := time.Now()
-	n := p.Units(*tier, *seed)
+	segs := plan(p, *tier, *seed)
+	n := planUnits(segs)
 	for u := 0; u < n; u++ {
 		if *only >= 0 {
 			if u != *only {
@@ -220,7 +221,9 @@ func cmdChild(props map[string]Property, args []string) int {
 						Detail: fmt.Sprintf("panic escaped the unit: %v\n%s", r, debug.Stack())})
 				}
 			}()
-			p.RunUnit(env, u)
+			seg, lu := locate(segs, u)
+			env.Tier, env.Seed = seg.Tier, seg.Seed
+			p.RunUnit(env, lu)
 		}()
 		col.Stats["units"]++
 		if col.doneFile != nil {
@@ -253,6 +256,50 @@ func cmdChild(props map[string]Property, args []string) int {
 		return ExitInfra
 	}
 	return 0
+}
+
+// ---- seed sweep ---------------------------------------------------------------
+//
+// The thorough tier is the thorough workload under VERIF_SEED followed by the
+// quick workload under SweepSeeds further PRNG values derived from it: several of
+// the defects found in gojq showed only under some values of the quick tier.
+
+const SweepSeeds = 8
+
+type segment struct {
+	Tier  string `json:"tier"`
+	Seed  uint64 `json:"seed"`
+	Units int    `json:"units"`
+}
+
+func plan(p Property, tier string, seed uint64) []segment {
+	segs := []segment{{tier, seed, p.Units(tier, seed)}}
+	if tier == "thorough" && os.Getenv("VERIF_NO_SWEEP") == "" {
+		for j := 1; j <= SweepSeeds; j++ {
+			s := Mix(seed, 0x5eed, uint64(j))
+			segs = append(segs, segment{"quick", s, p.Units("quick", s)})
+		}
+	}
+	return segs
+}
+
+func planUnits(segs []segment) int {
+	n := 0
+	for _, s := range segs {
+		n += s.Units
+	}
+	return n
+}
+
+// locate maps a global unit number to its segment and the unit number inside it.
+func locate(segs []segment, u int) (segment, int) {
+	for _, s := range segs {
+		if u < s.Units {
+			return s, u
+		}
+		u -= s.Units
+	}
+	return segs[len(segs)-1], u
 }
 
 // ---- exec: one case in a fresh process (fatal-error confirmation) -----------
@@ -524,7 +571,8 @@ func cmdRun(props map[string]Property, args []string) int {
 		fmt.Fprintln(os.Stderr, "known_findings.json:", err)
 		return ExitInfra
 	}
-	units := p.Units(*tier, seed)
+	segs := plan(p, *tier, seed)
+	units := planUnits(segs)
 	n := *shards
 	if n <= 0 {
 		n = runtime.NumCPU()
@@ -740,7 +788,7 @@ func cmdRun(props map[string]Property, args []string) int {
 	ev.Coverage["exhaustive"] = false
 	ev.Coverage["shards"] = n
 	ev.Coverage["units"] = units
-	ev.Coverage["seeds"] = map[string]any{"VERIF_SEED": seed, "sub_seeds": units, "note": "unit i uses the sub-seed mix(VERIF_SEED, property, i); every case inside a unit derives from it"}
+	ev.Coverage["seeds"] = map[string]any{"VERIF_SEED": seed, "sub_seeds": units, "sweep": segs, "note": "unit i of a segment uses the sub-seed mix(segment seed, property, i); every case inside a unit derives from it; the thorough tier is the thorough workload under VERIF_SEED plus the quick workload under further PRNG values derived from it"}
 	ev.Coverage["known_finding_hits"] = total.Stats["known_finding_hits"]
 	ev.Coverage["notes"] = total.Notes
 	ev.Coverage["infra_trouble"] = infra
